@@ -1254,3 +1254,29 @@ def region_names(F, f, blocks, depth=3, _seen=None):
                     _seen.add((c.path, ()))
                     names |= region_names(F, c, set(range(len(c.blocks))), depth, _seen)
     return names
+
+
+# ---------------------------------------------------------------------------------------------------------------
+# EQOP: a binary operator whose two operands are the same expression (contradiction rule; expected count zero)
+# ---------------------------------------------------------------------------------------------------------------
+def eqop(F, rep, files, floor=1000):
+    """`a || a`, `x == x`, `n - n` ... in the files a property is anchored in: one operand was meant to be something
+    else, so the operation computes a different function of its inputs than the one it is named after. Read from the
+    type-checked HIR by the fact driver (operands textually identical, no calls, not macro-generated)."""
+    from harness import Finding
+    seen = sum(F.binary_seen.values()) if getattr(F, "binary_seen", None) else 0
+    rep.floor("EQOP", "binary expressions visited by the HIR scan", seen, floor)
+    n = 0
+    for r in getattr(F, "eqops", []):
+        if not any(r["file"].endswith(x) for x in files):
+            continue
+        n += 1
+        fn = r["fn"].split("::")[-1]
+        inst = "%s|%s %s %s" % (fn, r["text"], r["op"], r["text"])
+        rep.oblige("EQOP", inst, False)
+        rep.add(Finding("EQOP", "EQOP|" + inst,
+                        "`%s %s %s`: both operands are the same expression, so the result ignores the other operand "
+                        "the operation was given" % (r["text"], r["op"], r["text"]),
+                        file=r["file"], line=r["ln"], fn=r["fn"]))
+    rep.oblige("EQOP", "anchored files: %d" % len(files), True,
+               sample={"rule": "EQOP", "files": list(files), "binary_expressions_scanned": seen, "identical_operands": n})
